@@ -5,6 +5,7 @@ import Chewing.Proofs.WalkEntries
 import Chewing.Proofs.WalkValid
 import Chewing.Proofs.WalkLinear
 import Chewing.Proofs.WalkThreads
+import Chewing.Proofs.WalkOpen
 import Chewing.Proofs.TrieWitness
 import Chewing.Proofs.Estimate
 /-!
@@ -284,6 +285,27 @@ theorem walk_total_after_open {P : Type} (ib : List Nat) (dl : Nat) (leaf : Nat 
     intro pred first q
     obtain ⟨r, hr⟩ := lookup_returns t pred first q
     exact ⟨r, hr, lookup_length_le_first t pred first q r hr⟩
+
+/-- **open_total** and the traversals, for ALL byte strings (byte-level model of `Trie::new`: C11's DER model of the
+    `der` crate, then `validate_index`): opening a file returns — `none` = an ordinary `Err` — and on every `Trie` it
+    returns, every lookup returns at most `first` phrases with at most `n` threads, and `entries()` returns without
+    panic within `16·n + 2` loop iterations (`n` = records of the index, at most one per 8 bytes of the file) -/
+theorem trie_file_total (bytes : Der.Bytes) :
+    TrieCodec.openTrie bytes = none ∨
+    ∃ t, TrieCodec.openTrie bytes = some t ∧
+      (∀ pred first q, ∃ r, lookup (tblOf t) pred first q = .ok r ∧ r.length ≤ first) ∧
+      (∀ pred q th, (∀ syl ∈ q, pred 0 syl = false) → threads (tblOf t) pred q = .ok (some th) →
+        th.length ≤ (tblOf t).n) ∧
+      (∀ fuel s, entriesFuel (tblOf t) fuel ≠ .panic s) ∧
+      Returns (entriesFuel (tblOf t) (16 * (tblOf t).n + 2)) := by
+  rcases open_then_valid bytes with h | ⟨t, h1, hv⟩
+  · exact Or.inl h
+  · refine Or.inr ⟨t, h1, ?_, fun pred q th hp h => threads_length_linear hv pred q th hp h,
+      fun fuel s => entriesFuel_no_panic (valid_noZeroChild hv) fuel s,
+      entriesFuel_returns_linear hv _ (Nat.le_refl _)⟩
+    intro pred first q
+    obtain ⟨r, hr⟩ := lookup_returns (tblOf t) pred first q
+    exact ⟨r, hr, lookup_length_le_first _ pred first q r hr⟩
 
 /-! ### the former findings F16 / F17: rejected by `validate_index`; what they did to the traversals -/
 
